@@ -79,7 +79,7 @@ ACTIVE = 'all_selected(condition_stack, len(condition_stack._selected))'
 SCOPE_STEP = ('(current_scope is {e}(current_scope) or current_scope is self._label_scope'
               ' or (fresh(current_scope) and current_scope._type == LabelScopeType.LOCAL'
               ' and current_scope._parent is self._label_scope))')
-contract(AF + '.load_line_objects', props=['C17', 'C06', 'C05', 'C08'], blocks_only=True,
+contract(AF + '.load_line_objects', props=['C17', 'C06', 'C05', 'C08', 'C02'], blocks_only=True,
          params=dict(LOAD_PARAMS, condition_stack='ConditionStack'),
          locals={'line_objects': 'list[LineObject]', 'line_num': 'int', 'current_scope': 'LabelScope',
                  'current_memzone': 'MemoryZone', 'line': 'str', 'lobj_list': 'list[LineObject]'},
@@ -109,6 +109,46 @@ contract(AF + '.load_line_objects', props=['C17', 'C06', 'C05', 'C08'], blocks_o
              modifies=WIDE + ['line_objects[*]', '*._compilable:LineObject', '*._is_muted:LineObject',
                               '*._label_scope:LineObject', 'all-dicts:dict[str,LabelInfo]'],
              allocates=True),
+             # one parsed line object: what it does to the local-label region, the selected zone and the label tables
+             'lobj': dict(
+                 where='loop[0.0].body', locals={'lobj': 'LineObject'}, props=['C06', 'C08', 'C02', 'C05'],
+                 requires=['cs_wf(condition_stack)', 'allocated(self._label_scope)',
+                           'allocated(current_scope)', 'allocated(line_objects)', 'line_objects is not lobj_list',
+                           'line_objects is not condition_stack._stack',
+                           'scope_wf(current_scope)', 'scope_wf(self._label_scope)',
+                           'self._label_scope._type == LabelScopeType.FILE',
+                           'implies(self._label_scope._parent is not None, allocated(self._label_scope._parent))'],
+                 may_raise={'SystemExit': 'True', 'ValueError': 'True', 'KeyError': 'True', 'AttributeError': 'True'},
+                 ensures=[
+                     # C08: a line of an unselected branch changes neither the region nor the zone, and defines nothing
+                     'implies(not lobj._compilable, current_scope is old(current_scope)'
+                     ' and current_memzone is old(current_memzone))',
+                     'implies(not lobj._compilable and isa(lobj, "LabelLine"),'
+                     ' has(target(old(current_scope), kind_of(lobj._label)), lobj._label)'
+                     ' == old(has(target(current_scope, kind_of(lobj._label)), lobj._label)))',
+                     # C06: every address label that is not itself local -- global or file label -- opens a new local region
+                     'implies(lobj._compilable and isa(lobj, "LabelLine") and lobj._value is None'
+                     ' and kind_of(lobj._label) != 2, fresh(current_scope) and current_scope._type == LabelScopeType.LOCAL'
+                     ' and current_scope._parent is self._label_scope and current_memzone is old(current_memzone))',
+                     # C06 / C05 / C02: an origin or zone directive closes the region and selects its zone
+                     'implies(lobj._compilable and isa(lobj, "SetMemoryZoneLine"),'
+                     ' current_scope is self._label_scope and current_memzone is lobj._memzone)',
+                     # anything else leaves both as they are
+                     'implies(lobj._compilable and not isa(lobj, "SetMemoryZoneLine") and not (isa(lobj, "LabelLine")'
+                     ' and lobj._value is None and kind_of(lobj._label) != 2),'
+                     ' current_scope is old(current_scope) and current_memzone is old(current_memzone))',
+                     # the line is resolved in the region it stands in; a constant is defined there right away
+                     'implies(lobj._compilable, lobj._label_scope is current_scope)',
+                     'implies(lobj._compilable and isa(lobj, "LabelLine") and lobj._value is not None,'
+                     ' has(target(current_scope, kind_of(lobj._label)), lobj._label))',
+                     'len(line_objects) == old(len(line_objects)) + 1',
+                     'elems(line_objects)[old(len(line_objects))] is lobj',
+                     'forall(lambda j: implies(0 <= j and j < old(len(line_objects)),'
+                     ' elems(line_objects)[j] is old(elems(line_objects))[j]))',
+                     'scope_wf(current_scope)', 'cs_wf(condition_stack)', 'allocated(current_scope)'],
+                 modifies=['line_objects[*]', 'lobj._compilable', 'lobj._is_muted', 'lobj._label_scope',
+                           'all-dicts:dict[str,LabelInfo]'],
+                 allocates=True),
              # every file -- included or not -- starts in its own file scope and in the GLOBAL zone
              'start-scope': dict(where='from:current_scope = self.label_scope:1', locals={}, requires=[],
                                  ensures=['current_scope is self._label_scope'], modifies=[]),
@@ -128,7 +168,7 @@ contract(AF + '.load_line_objects', props=['C17', 'C06', 'C05', 'C08'], blocks_o
                             inv=['m <= len(lobj_list)', 'len(line_objects) == old(len(line_objects)) + m',
                                  'forall(lambda j: implies(0 <= j and j < old(len(line_objects)),'
                                  ' elems(line_objects)[j] is old(elems(line_objects))[j]))',
-                                 SCOPE_STEP.format(e='old'), 'allocated(current_scope) or fresh(current_scope)',
+                                 SCOPE_STEP.format(e='old'), 'allocated(current_scope)',
                                  'scope_wf(current_scope)', 'cs_wf(condition_stack)',
                                  'self._label_scope is old(self._label_scope)'])})
 
